@@ -49,7 +49,8 @@ func ShutDown(
 		return fmt.Errorf("can't kill the stake pool: %v", err)
 	}
 
-	if err = sp.Save(p.Type(), clientId, balances); err != nil {
+	// the stake pool belongs to the provider that is shut down, not to the caller (owner or delegate wallet)
+	if err = sp.Save(p.Type(), p.Id(), balances); err != nil {
 		return err
 	}
 
